@@ -1851,3 +1851,65 @@ Section LoopFacts.
     cbn [fst snd] in *. intro H. rewrite (IH H). reflexivity.
   Qed.
 End LoopFacts.
+
+(* ================================================================ 10. the outcome, exactly and end to end *)
+
+(* thriftgo goes on with a plugin's answer exactly when the process exited with status 0, its
+   stdout decodes, and the decoded Error is unset or empty; in every other case it fails *)
+Theorem outcome_proceed_iff name pr :
+  (exists ws cs, outcome name pr = Proceed ws cs) <->
+  (exists out err r, pr = Exited 0 out err /\ unmarshal_response out = Some r /\ no_error r).
+Proof.
+  split.
+  - intros [ws [cs H]]. destruct pr as [code out err|out err|]; unfold outcome, execute in H; try discriminate.
+    destruct (Z.eqb_spec code 0) as [->|Hc]; cbn [negb] in H; [|cbn in H; discriminate].
+    destruct (unmarshal_response out) as [r|] eqn:Er; [|cbn in H; discriminate].
+    exists out, err, r. split; [reflexivity|]. split; [exact Er|].
+    unfold no_error. destruct (rs_error r) as [[|c e]|] eqn:Ee; auto.
+    exfalso. destruct err; cbn [rs_error] in H; try rewrite Ee in H; discriminate.
+  - intros [out [err [r [-> [Hr He]]]]]. rewrite (outcome_ok name out err r Hr He). eauto.
+Qed.
+
+Corollary outcome_fail_iff name pr :
+  (exists ws, outcome name pr = Fail ws) <->
+  ~ (exists out err r, pr = Exited 0 out err /\ unmarshal_response out = Some r /\ no_error r).
+Proof.
+  split.
+  - intros [ws H] Hc. apply (proj2 (outcome_proceed_iff name pr)) in Hc. destruct Hc as [a [b Hc]]. rewrite H in Hc. discriminate Hc.
+  - intro Hn. destruct (outcome name pr) as [ws|ws cs] eqn:E; [exists ws; reflexivity|].
+    exfalso. apply Hn. apply (proj1 (outcome_proceed_iff name pr)). exists ws, cs. exact E.
+Qed.
+
+(* end to end, from the response VALUE a plugin builds: it exits 0 having written the encoding
+   of r (anything may follow), r has no error: exactly r's contents are handed on, in order, and
+   exactly r's warnings (then the stderr note) are shown *)
+Theorem response_honoured name r rest err :
+  response_ok r = true -> no_error r ->
+  outcome name (Exited 0 (marshal_response r ++ rest) err) =
+  Proceed (shown_of name err r) (get_list (rs_contents r)).
+Proof. intros Hok He. apply outcome_ok; [apply response_roundtrip; exact Hok|exact He]. Qed.
+
+(* ... and an answer whose Error is a non-empty text makes thriftgo fail, showing r's warnings *)
+Theorem response_error_fails name r rest err c e :
+  response_ok r = true -> rs_error r = Some (c :: e) ->
+  exists ws, outcome name (Exited 0 (marshal_response r ++ rest) err) = Fail ws.
+Proof.
+  intros Hok He. apply outcome_fail. right. right. exists r, c, e. split; [apply response_roundtrip; exact Hok|exact He].
+Qed.
+
+(* the whole loop on typed answers: every plugin exits 0 with the encoding of an error-free
+   response: the file manager receives every plugin's contents, plugin after plugin *)
+Theorem run_plugins_all_honoured : forall (ps : list (bytes * response)) m shown m',
+  Forall (fun p => response_ok (snd p) = true /\ no_error (snd p)) ps ->
+  feed_all m (map snd ps) = FileManager.Ok m' ->
+  run_plugins m shown (map (fun p => (fst p, Exited 0 (marshal_response (snd p)) [])) ps) =
+  ROk (shown ++ List.concat (map (fun p => get_list (rs_warnings (snd p))) ps)) m'.
+Proof.
+  induction ps as [|[n r] ps IH]; intros m shown m' Hall Hfeed.
+  - cbn in *. injection Hfeed as <-. rewrite app_nil_r. reflexivity.
+  - inversion Hall as [|? ? Hhd Hrest]; subst. destruct Hhd as [Hok He]. cbn [fst snd map feed_all] in *.
+    pose proof (response_roundtrip r [] Hok) as Hrt. rewrite app_nil_r in Hrt.
+    cbn [run_plugins]. rewrite (outcome_ok n _ [] r Hrt He).
+    destruct (feed m (map to_gen (get_list (rs_contents r)))) as [m1| |]; try discriminate.
+    rewrite (IH m1 _ m' Hrest Hfeed). unfold shown_of. rewrite app_nil_r. cbn [List.concat]. rewrite app_assoc. reflexivity.
+Qed.
